@@ -5,9 +5,12 @@
    largeFileServe / largeFileReceive, disposition rule, store slice of uploads, links, GC).
    The models follow /repo after the fix commits c986697 (failed FinishUpload answered, bytes
    removed) and 560b667 (only completed uploads are served); the handlers as they were are kept
-   as [upload_gate_unrepaired] / [download_unrepaired] and refuted below. *)
+   as [upload_gate_unrepaired] / [download_unrepaired] and refuted below.
+   Sys/FilesSaveC16b.v: messagesMapper.Save and Topic.saveAndBroadcastMessage statement by statement
+   above the store slice (section "Save" below). *)
 From Coq Require Import NArith ZArith List Bool.
 From Tinode Require Import Pure.Url Pure.UrlProofs Sys.Files Sys.FilesGateProofs Sys.FilesStoreProofs.
+From Tinode Require Import Sys.FilesSaveC16b Sys.FilesSaveC16bProofs.
 Import ListNotations.
 
 (* ------------------------------------------------------------------ *)
@@ -433,6 +436,198 @@ Proof. exact publish_missing_links_nothing. Qed.
 Print Assumptions c16_missing_attachment_links_nothing.
 
 (* ------------------------------------------------------------------ *)
+(* Save: the attachments of EVERY accepted message are linked, whoever sent it             *)
+(* (Sys/FilesSaveC16b.v: messagesMapper.Save = TopicUpdateOnMessage; MessageSave;          *)
+(*  [SubsUpdate, error ignored]; [FileLinkAttachments, error returned], with readBySender, *)
+(*  the sender uid and a fault plan of the four adapter calls as parameters)               *)
+
+(* For EVERY store state, fault plan, message, sender uid (zero included), attachment list and
+   BOTH values of readBySender: if Save returns no error then every listed URL that yields a file
+   id has its link row to the new message, the message row exists and the upload record exists. *)
+Theorem c16_save_links_every_attachment : forall ft serve s m urls read_by_sender url,
+  let r := save_c16b ft true serve s m urls read_by_sender in
+  sr_err (snd r) = false ->
+  In url urls -> get_id_from_url serve url <> 0%N ->
+  In (get_id_from_url serve url, TMsg (next_mid (sv_fs s))) (links (sv_fs (fst r))) /\
+  target_live (sv_fs (fst r)) (TMsg (next_mid (sv_fs s))) = true /\
+  In (get_id_from_url serve url) (file_ids (sv_fs (fst r))).
+Proof. exact save_accepted_links. Qed.
+Print Assumptions c16_save_links_every_attachment.
+
+(* ... and Save does return no error whenever TopicUpdateOnMessage, MessageSave and
+   FileLinkAttachments do not fail, the topic row exists and every listed id names an upload record
+   (the existing scope of c16_linked_while_referenced) - whatever readBySender, the sender, the
+   subscription rows and the outcome of SubsUpdate are. *)
+Theorem c16_save_accepts : forall ft handler serve s m urls read_by_sender,
+  ff_topic ft = false -> ff_msg ft = false -> ff_link ft = false ->
+  memN (mg_topic m) (topics (sv_fs s)) = true ->
+  forallb (fun x => memN x (file_ids (sv_fs s))) (save_fids_c16b handler serve urls) = true ->
+  sr_err (snd (save_c16b ft handler serve s m urls read_by_sender)) = false.
+Proof. exact save_accepts. Qed.
+Print Assumptions c16_save_accepts.
+
+(* "independently of readBySender": upload records, link rows, message rows, bytes and the error
+   returned are the same function of (fault plan of the three other calls, media handler, topic,
+   URLs) for any two values of readBySender, any two senders, any two sequence numbers, any two
+   outcomes of SubsUpdate and any two subscription tables. *)
+Theorem c16_save_independent_of_sender : forall ft ft' handler serve s s' m m' urls rbs rbs',
+  ff_topic ft = ff_topic ft' -> ff_msg ft = ff_msg ft' -> ff_link ft = ff_link ft' ->
+  sv_fs s = sv_fs s' -> mg_topic m = mg_topic m' ->
+  sv_fs (fst (save_c16b ft handler serve s m urls rbs)) = sv_fs (fst (save_c16b ft' handler serve s' m' urls rbs')) /\
+  sr_err (snd (save_c16b ft handler serve s m urls rbs)) = sr_err (snd (save_c16b ft' handler serve s' m' urls rbs')).
+Proof. exact save_fs_independent. Qed.
+Print Assumptions c16_save_independent_of_sender.
+
+(* Save IS the publish operation of the history model (so every history theorem above applies to
+   it): an accepted Save leaves exactly the file slice of [OPublish topic (resolve serve urls)] *)
+Theorem c16_save_is_publish : forall ft serve s m urls read_by_sender,
+  let r := save_c16b ft true serve s m urls read_by_sender in
+  sr_err (snd r) = false ->
+  memN (mg_topic m) (topics (sv_fs s)) = true /\
+  forallb (fun x => memN x (file_ids (sv_fs s))) (resolve serve urls) = true /\
+  sv_fs (fst r) = step (sv_fs s) (OPublish (mg_topic m) (resolve serve urls)).
+Proof. exact save_accepted_fs. Qed.
+Print Assumptions c16_save_is_publish.
+
+(* over ALL histories before (h1) and after (h2) the Save: a listed URL that names a completed
+   upload keeps its link row, its record, its bytes and stays downloadable by that very URL for as
+   long as the message exists - for every sender, readBySender and fault plan under which Save
+   returned no error *)
+Theorem c16_save_listed_url_kept_downloadable : forall h1 ft serve sq sb cl m urls read_by_sender h2 url,
+  let s := {| sv_fs := run h1; sv_seq := sq; sv_subs := sb; sv_calls := cl |} in
+  let r := save_c16b ft true serve s m urls read_by_sender in
+  sr_err (snd r) = false ->
+  In url urls -> is_done (get_id_from_url serve url) (files (run h1)) = true ->
+  let mid := next_mid (run h1) in
+  let s2 := run_from (sv_fs (fst r)) h2 in
+  target_live s2 (TMsg mid) = true ->
+  let f := get_id_from_url serve url in
+  In (f, TMsg mid) (links s2) /\ In f (file_ids s2) /\ In f (disk s2) /\
+  exists g, download s2 serve url = Some g /\ f_id g = f /\ f_done g = true.
+Proof. exact save_listed_url_linked. Qed.
+Print Assumptions c16_save_listed_url_kept_downloadable.
+
+(* Topic.saveAndBroadcastMessage, EVERY sender mode (want, given: any N, in particular all 256 x 256
+   access modes), 'sys' or not, subscribed or not (want = given = 0), any acting uid: a publish that
+   is answered "accepted" has every resolvable attachment linked to the stored message.  W without R
+   (readBySender = false) is not special. *)
+Theorem c16_every_sender_mode_links : forall ft serve s is_sys want given last_id topic as_uid urls s' marked url,
+  pub_save_c16b ft true serve s is_sys want given last_id topic as_uid urls = (s', PubAccepted marked) ->
+  In url urls -> get_id_from_url serve url <> 0%N ->
+  In (get_id_from_url serve url, TMsg (next_mid (sv_fs s))) (links (sv_fs s')) /\
+  target_live (sv_fs s') (TMsg (next_mid (sv_fs s))) = true /\
+  In (get_id_from_url serve url) (file_ids (sv_fs s')).
+Proof. exact pub_accepted_links. Qed.
+Print Assumptions c16_every_sender_mode_links.
+
+(* two publishes of the same attachment list that pass the write gate - by senders of any two modes,
+   to 'sys' or not - leave the same upload records, link rows and bytes and fail or succeed together;
+   a publish is refused only to a non-writer outside 'sys', and then nothing at all changes *)
+Theorem c16_pub_independent_of_sender_mode :
+  (forall ft ft' handler serve s is_sys is_sys' want given want' given' last last' topic as_uid as_uid' urls,
+     ff_topic ft = ff_topic ft' -> ff_msg ft = ff_msg ft' -> ff_link ft = ff_link ft' ->
+     let r := pub_save_c16b ft handler serve s is_sys want given last topic as_uid urls in
+     let r' := pub_save_c16b ft' handler serve s is_sys' want' given' last' topic as_uid' urls in
+     snd r <> PubDenied -> snd r' <> PubDenied ->
+     sv_fs (fst r) = sv_fs (fst r') /\ (snd r = PubFailed <-> snd r' = PubFailed)) /\
+  (forall ft handler serve s is_sys want given last topic as_uid urls s',
+     pub_save_c16b ft handler serve s is_sys want given last topic as_uid urls = (s', PubDenied) ->
+     s' = s /\ is_sys = false /\ is_writer_c16b (N.land want given) = false) /\
+  (forall ft handler serve s is_sys want given last topic as_uid urls,
+     snd (pub_save_c16b ft handler serve s is_sys want given last topic as_uid urls) <> PubDenied ->
+     is_sys = true \/ is_writer_c16b (N.land want given) = true).
+Proof. exact (conj pub_fs_independent_of_sender (conj pub_denied_no_effect pub_gate)). Qed.
+Print Assumptions c16_pub_independent_of_sender_mode.
+
+(* what readBySender and the sender DO decide: the sender's read / received marks, and nothing else.
+   SubsUpdate runs only for a reading sender with a non-zero uid (a zero uid would reset the marks of
+   every subscriber); its failure is ignored. *)
+Theorem c16_save_marks_only : forall ft handler serve s m urls read_by_sender,
+  (ff_topic ft = false -> ff_msg ft = false -> memN (mg_topic m) (topics (sv_fs s)) = true ->
+     sr_marked (snd (save_c16b ft handler serve s m urls read_by_sender)) =
+     read_by_sender && negb (mg_from m =? 0)%N && negb (ff_subs ft)) /\
+  (read_by_sender = false \/ mg_from m = 0%N ->
+     sv_subs (fst (save_c16b ft handler serve s m urls read_by_sender)) = sv_subs s).
+Proof.
+  intros ft handler serve s m urls rbs.
+  exact (conj (save_marked_iff ft handler serve s m urls rbs) (save_subs_untouched ft handler serve s m urls rbs)).
+Qed.
+Print Assumptions c16_save_marks_only.
+
+(* Save's control flow as the sequence of adapter calls it makes (the log memverif keeps; compared with
+   the implementation's log on every generated publish): TopicUpdateOnMessage; then MessageSave unless
+   that failed; then, unless that failed, SubsUpdate iff readBySender and the sender uid is not zero, and
+   FileLinkAttachments iff the list resolves to at least one id and a media handler is configured - in
+   particular the link call does NOT depend on readBySender, on the sender or on what SubsUpdate did *)
+Theorem c16_save_calls : forall ft handler serve s m urls read_by_sender,
+  sv_calls (fst (save_c16b ft handler serve s m urls read_by_sender)) =
+  sv_calls s ++
+  (CTopicUpdateOnMessage, ff_topic ft) ::
+  if ff_topic ft then []
+  else (CMessageSave, ff_msg ft) ::
+    if ff_msg ft || negb (memN (mg_topic m) (topics (sv_fs s))) then []
+    else (if read_by_sender && negb (mg_from m =? 0)%N then [(CSubsUpdate, ff_subs ft)] else []) ++
+         (match save_fids_c16b handler serve urls with
+          | [] => []
+          | _ :: _ => [(CFileLinkAttachments, ff_link ft)]
+          end).
+Proof. exact save_calls_char. Qed.
+Print Assumptions c16_save_calls.
+
+(* The sentence without the scope - "once the message row is stored, every listed attachment that
+   names a completed upload is linked" - is refuted by Save's own control flow: FileLinkAttachments
+   is called AFTER MessageSave and its error is returned with the row in place (a store failure,
+   or one listed id without a record: finding c16-attachment-link-all-or-nothing). *)
+Definition c16_save_row_linked_statement : Prop :=
+  forall ft serve s m urls read_by_sender url,
+    ff_topic ft = false -> ff_msg ft = false -> memN (mg_topic m) (topics (sv_fs s)) = true ->
+    In url urls -> is_done (get_id_from_url serve url) (files (sv_fs s)) = true ->
+    let r := save_c16b ft true serve s m urls read_by_sender in
+    In (get_id_from_url serve url, TMsg (next_mid (sv_fs s))) (links (sv_fs (fst r))).
+
+Definition c16_save_witness_name : list N := [86;102;51;107;81;57;95;45;97;90;48]%N.
+Definition c16_save_witness_state : sstate_c16b :=
+  {| sv_fs := run [OAddTopic 1; OStart (parse_uid c16_save_witness_name) 0 []; OFinish (parse_uid c16_save_witness_name) true 0];
+     sv_seq := [(1, 0)]%N; sv_subs := [{| sb_topic := 1; sb_user := 7; sb_recv := 0; sb_read := 0 |}]; sv_calls := [] |}.
+
+Theorem c16_save_row_linked_refuted : ~ c16_save_row_linked_statement.
+Proof.
+  intros H.
+  specialize (H {| ff_topic := false; ff_msg := false; ff_subs := false; ff_link := true |} []
+                c16_save_witness_state {| mg_topic := 1; mg_seq := 1; mg_from := 7 |}
+                [c16_save_witness_name] true c16_save_witness_name eq_refl eq_refl eq_refl (or_introl eq_refl) eq_refl).
+  vm_compute in H. exact H.
+Qed.
+Print Assumptions c16_save_row_linked_refuted.
+
+(* exactly when: an error with the row stored comes from FileLinkAttachments - injected failure or a
+   listed id without a record - and then NO link row was written *)
+Theorem c16_save_error_after_row : forall ft handler serve s m urls read_by_sender,
+  let r := save_c16b ft handler serve s m urls read_by_sender in
+  sr_err (snd r) = true -> ff_topic ft = false -> ff_msg ft = false ->
+  memN (mg_topic m) (topics (sv_fs s)) = true ->
+  target_live (sv_fs (fst r)) (TMsg (next_mid (sv_fs s))) = true /\
+  links (sv_fs (fst r)) = links (sv_fs s) /\
+  (ff_link ft = true \/ forallb (fun x => memN x (file_ids (sv_fs s))) (save_fids_c16b handler serve urls) = false).
+Proof. exact save_error_after_row. Qed.
+Print Assumptions c16_save_error_after_row.
+
+(* the statement under the hypothesis that excludes exactly that trigger *)
+Theorem c16_save_row_linked_partial : forall ft serve s m urls read_by_sender url,
+  ff_topic ft = false -> ff_msg ft = false -> memN (mg_topic m) (topics (sv_fs s)) = true ->
+  ff_link ft = false -> forallb (fun x => memN x (file_ids (sv_fs s))) (resolve serve urls) = true ->
+  In url urls -> get_id_from_url serve url <> 0%N ->
+  let r := save_c16b ft true serve s m urls read_by_sender in
+  sr_err (snd r) = false /\
+  In (get_id_from_url serve url, TMsg (next_mid (sv_fs s))) (links (sv_fs (fst r))).
+Proof.
+  intros ft serve s m urls rbs url H1 H2 Ht H3 Hall Hin Hnz r.
+  assert (E : sr_err (snd r) = false) by exact (save_accepts ft true serve s m urls rbs H1 H2 H3 Ht Hall).
+  exact (conj E (proj1 (save_accepted_links ft serve s m urls rbs url E Hin Hnz))).
+Qed.
+Print Assumptions c16_save_row_linked_partial.
+
+(* ------------------------------------------------------------------ *)
 (* non-vacuity                                                          *)
 
 Example c16_ex_upload_ok :
@@ -471,3 +666,19 @@ Proof. vm_compute. repeat split. Qed.
 Example c16_ex_active : force_attachment false [116;101;120;116;47;104;116;109;108]%N = true /\
                         force_attachment false [105;109;97;103;101;47;112;110;103]%N = false.
 Proof. vm_compute. split; reflexivity. Qed.
+
+Example c16_ex_save_write_only_sender :
+  (* a group topic, the sender's want = JWP (13), given = JRWPS (47): W without R.  The publish is
+     accepted, the read mark of the sender is NOT moved, the attachment IS linked; the same for a post
+     to 'sys' by a user without a subscription (modes 0) *)
+  let serve := [47;118;48;47;102;105;108;101;47;115;47]%N in
+  let url := serve ++ c16_save_witness_name in
+  let r := pub_save_c16b no_faults_c16b true serve c16_save_witness_state false 13 47 0 1 7 [url] in
+  let r' := pub_save_c16b no_faults_c16b true serve c16_save_witness_state true 0 0 0 1 9 [url] in
+  snd r = PubAccepted false /\ snd r' = PubAccepted false /\
+  links (sv_fs (fst r)) = [(parse_uid c16_save_witness_name, TMsg 1)] /\
+  links (sv_fs (fst r')) = [(parse_uid c16_save_witness_name, TMsg 1)] /\
+  sv_subs (fst r) = sv_subs c16_save_witness_state /\
+  snd (pub_save_c16b no_faults_c16b true serve c16_save_witness_state false 47 47 0 1 7 [url]) = PubAccepted true /\
+  snd (pub_save_c16b no_faults_c16b true serve c16_save_witness_state false 11 47 0 1 7 [url]) = PubDenied.
+Proof. vm_compute. repeat split. Qed.
